@@ -407,6 +407,7 @@ func c13Int8(r *R) {
 		}
 	}
 	c13Wide(r)
+	c13Identity(r)
 }
 
 // c13Wide: the aggregates in the element type itself, at the ends of the 64-bit types (a detour through
@@ -701,4 +702,76 @@ func c13Range(r *R) {
 			}
 		}
 	}
+}
+
+
+// c13Identity: equality of elements is Go's ==, also where == means identity: two distinct pointers to
+// equal values are different elements (so are interface values holding them, and structs with a pointer
+// field). Every slice up to length 3 over {p, q, nil} with *p == *q.
+func c13Identity(r *R) {
+	p, q := new(int), new(int)
+	type box struct {
+		P *int
+		N int
+	}
+	search := func(tn string, check func(probeIsQ bool, s []int) (idx, last int, has bool)) {
+		// s encodes the slice: 0 = p, 1 = q, 2 = nil
+		for _, s := range enum.AllSlices([]int{0, 1, 2}, 3) {
+			for probe := 0; probe <= 1; probe++ {
+				wantIdx, wantLast := -1, -1
+				for i, v := range s {
+					if v == probe {
+						if wantIdx < 0 {
+							wantIdx = i
+						}
+						wantLast = i
+					}
+				}
+				idx, last, has := check(probe == 1, s)
+				r.Eval("identity[" + tn + "]")
+				if idx != wantIdx || last != wantLast || has != (wantIdx >= 0) {
+					r.Bad("IndexOf-LastIndexOf-Contains/pointer-identity/"+tn, fmt.Sprintf("slice %v (0 = p, 1 = q, 2 = nil; *p == *q), probe %d", s, probe), "IndexOf = %d, LastIndexOf = %d, Contains = %t, want %d, %d, %t", idx, last, has, wantIdx, wantLast, wantIdx >= 0)
+				}
+			}
+		}
+	}
+	ptr := []*int{p, q, nil}
+	search("*int", func(pq bool, s []int) (int, int, bool) {
+		var sl []*int
+		for _, v := range s {
+			sl = append(sl, ptr[v])
+		}
+		pr := p
+		if pq {
+			pr = q
+		}
+		return gogu.IndexOf(sl, pr), gogu.LastIndexOf(sl, pr), gogu.Contains(sl, pr)
+	})
+	search("any", func(pq bool, s []int) (int, int, bool) {
+		var sl []any
+		for _, v := range s {
+			sl = append(sl, any(ptr[v]))
+		}
+		var pr any = p
+		if pq {
+			pr = q
+		}
+		return gogu.IndexOf(sl, pr), gogu.LastIndexOf(sl, pr), gogu.Contains(sl, pr)
+	})
+	search("struct-with-pointer", func(pq bool, s []int) (int, int, bool) {
+		var sl []box
+		for _, v := range s {
+			sl = append(sl, box{ptr[v], 1})
+		}
+		pr := box{p, 1}
+		if pq {
+			pr = box{q, 1}
+		}
+		return gogu.IndexOf(sl, pr), gogu.LastIndexOf(sl, pr), gogu.Contains(sl, pr)
+	})
+	if gogu.Equal(p, q) || !gogu.Equal(p, p) || gogu.Equal(box{p, 1}, box{q, 1}) || !gogu.Equal(box{q, 1}, box{q, 1}) || gogu.Equal(any(p), any(q)) {
+		r.Bad("Equal/pointer-identity", "Equal on two distinct pointers to equal values / on the same pointer", "Equal(p,q)=%t Equal(p,p)=%t Equal(box{p},box{q})=%t", gogu.Equal(p, q), gogu.Equal(p, p), gogu.Equal(box{p, 1}, box{q, 1}))
+	}
+	r.Nontrivial("identity-a")
+	r.Nontrivial("identity-b")
 }
